@@ -35,8 +35,15 @@ Definition ins_ix (ix : index) (k : key) (id off : N) : index :=
 Definition tomb_ix (ix : index) (id : N) : index :=
   {| keyid := keyid ix; idoff := idoff ix; tombs := id :: tombs ix |}.
 
-Lemma exec_ins ix id off k :
+Lemma exec_ins ix id off k : id <> 0 ->
   exec ix {| se_flag := FLAG_INS; se_id := id; se_off := off; se_key := k |} = ins_ix ix k id off.
+Proof.
+  intro H. unfold exec. cbn [se_flag se_id se_off se_key]. change (FLAG_INS =? FLAG_INS) with true. cbv iota.
+  destruct (id =? 0) eqn:E; [apply N.eqb_eq in E; contradiction | reflexivity].
+Qed.
+(** An insert entry with id 0 (remains of a torn append) is not indexed. *)
+Lemma exec_ins_zero ix off k :
+  exec ix {| se_flag := FLAG_INS; se_id := 0; se_off := off; se_key := k |} = ix.
 Proof. reflexivity. Qed.
 Lemma exec_tomb ix id off k :
   exec ix {| se_flag := FLAG_TOMB; se_id := id; se_off := off; se_key := k |} = tomb_ix ix id.
@@ -192,12 +199,16 @@ Definition fresh_state (st : part) (k : key) : part :=
   {| seg := seg st ++ enc (Ins (seq st) k); seq := seq st + 8;
      ix := ins_ix (ix st) k (seq st) (end_off st) |}.
 
-Lemma create1_unfold st k : framed k ->
+Lemma pinv_seq_nz p st : PInv p st -> seq st <> 0.
+Proof. intros I. destruct (pi_cls _ _ I) as [j Hj]. lia. Qed.
+
+Lemma create1_unfold p st k : PInv p st -> framed k ->
   create1 st k = if negb (find_id (ix st) k =? 0) then (st, find_id (ix st) k)
                  else (fresh_state st k, seq st).
 Proof.
-  intro Hk. unfold create1. destruct (negb (find_id (ix st) k =? 0)); [reflexivity|].
-  unfold fresh_state, end_off. rewrite key_at_end by assumption. reflexivity.
+  intros I Hk. unfold create1. destruct (negb (find_id (ix st) k =? 0)); [reflexivity|].
+  unfold fresh_state, end_off. rewrite key_at_end by assumption.
+  rewrite exec_ins by (eapply pinv_seq_nz; eauto). reflexivity.
 Qed.
 
 Lemma fresh_inv p st k : PInv p st -> framed k -> seq st < 2 ^ 64 -> PInv p (fresh_state st k).
@@ -209,7 +220,7 @@ Proof.
     + rewrite bytes_of_app, Hs. f_equal. unfold bytes_of. cbn [flat_map]. now rewrite app_nil_r.
     + apply Forall_app. split; auto. constructor; [split; assumption | constructor].
     + rewrite with_offsets_app. cbn [with_offsets]. unfold replay. rewrite fold_left_app.
-      cbn [fold_left]. fold (replay (with_offsets L HDR)). rewrite <- Hi, exec_ins.
+      cbn [fold_left]. fold (replay (with_offsets L HDR)). rewrite <- Hi, exec_ins by (destruct Hc as [j Hj]; lia).
       unfold end_off. now rewrite Hs.
     + unfold next_seq. rewrite with_offsets_app. cbn [with_offsets]. rewrite max_ins_snoc.
       cbn [se_flag se_id]. change (FLAG_INS =? FLAG_INS) with true. cbn [andb].
@@ -246,7 +257,7 @@ Qed.
 
 Lemma create1_inv p st k : PInv p st -> framed k -> seq st < 2 ^ 64 -> PInv p (fst (create1 st k)).
 Proof.
-  intros I Hk Hb. rewrite create1_unfold by assumption.
+  intros I Hk Hb. rewrite (create1_unfold p) by assumption.
   destruct (negb (find_id (ix st) k =? 0)); cbn [fst]; [assumption | now apply fresh_inv].
 Qed.
 
@@ -254,7 +265,7 @@ Qed.
 Lemma create1_result p st k : PInv p st -> framed k ->
   let '(st', id) := create1 st k in find_id (ix st') k = id /\ id <> 0.
 Proof.
-  intros I Hk. rewrite create1_unfold by assumption.
+  intros I Hk. rewrite (create1_unfold p) by assumption.
   destruct (find_id (ix st) k =? 0) eqn:E; cbn [negb].
   - unfold fresh_state; cbn [ix].
     destruct (pi_cls _ _ I) as [j Hj]. split; [|lia].
@@ -312,7 +323,7 @@ Qed.
 Lemma create1_stable p st k k0 id0 : PInv p st -> framed k ->
   find_id (ix st) k0 = id0 -> id0 <> 0 -> find_id (ix (fst (create1 st k))) k0 = id0.
 Proof.
-  intros I Hk H0 Hnz. rewrite create1_unfold by assumption.
+  intros I Hk H0 Hnz. rewrite (create1_unfold p) by assumption.
   destruct (find_id (ix st) k =? 0) eqn:E; cbn [negb fst]; [|assumption].
   unfold fresh_state; cbn [ix]. rewrite find_id_ins_other; [assumption | |].
   - intro; subst k0. apply N.eqb_eq in E. congruence.
@@ -355,7 +366,8 @@ Qed.
 Lemma create1_issued_mono st k id : In id (issued st) -> In id (issued (fst (create1 st k))).
 Proof.
   unfold create1. destruct (negb (find_id (ix st) k =? 0)); cbn [fst]; [auto|].
-  unfold issued; cbn [ix exec]. change (FLAG_INS =? FLAG_INS) with true. cbn. auto.
+  unfold issued; cbn [ix]. unfold exec. cbn [se_flag se_id]. change (FLAG_INS =? FLAG_INS) with true. cbv iota.
+  destruct (seq st =? 0); cbn; auto.
 Qed.
 
 Lemma delete1_issued st id' : issued (delete1 st id') = issued st.
@@ -366,7 +378,7 @@ Proof. rewrite delete1_unfold. destruct (is_deleted (ix st) id'); reflexivity. Q
 Lemma create1_fresh p st k : PInv p st -> framed k -> find_id (ix st) k = 0 ->
   snd (create1 st k) = seq st /\ ~ In (seq st) (issued st) /\ cls p (seq st).
 Proof.
-  intros I Hk H0. rewrite create1_unfold by assumption. rewrite H0. cbn [N.eqb negb snd].
+  intros I Hk H0. rewrite (create1_unfold p) by assumption. rewrite H0. cbn [N.eqb negb snd].
   split; [reflexivity|]. split; [|exact (pi_cls _ _ I)].
   intro Hin. destruct (issued_lt _ _ _ I Hin). lia.
 Qed.
